@@ -231,6 +231,7 @@ pub fn run(cfg: &Cfg, rep: &mut Report) {
     ] {
         fixed.push((p.to_string(), fl(f)));
     }
+    fixed.extend(super::diff::first_position_shapes());
     let spec = StreamSpec {
         n_struct: cfg.scaled(if cfg.quick() { 8_000 } else { 300_000 }),
         enum_nodes: if cfg.quick() { 3 } else { 4 },
